@@ -64,10 +64,15 @@ def main():
     base_env.update({"TCPREMOTEIP": "192.0.2.7", "TCPREMOTEHOST": "client.test", "TCPLOCALHOST": "mx.test.example",
                      "TCPLOCALIP": "192.0.2.1"})
 
+    LIMIT = 150
+    limited = set()         # job numbers run under DATABYTES = LIMIT
+
     def session(job):
         idx, stream, cap = job
         env = dict(base_env)
         env.update(qq.env("s%d" % idx))
+        if idx in limited:
+            env["DATABYTES"] = str(LIMIT)
         if cap:
             env["VERIF_READCAP"] = str(cap)
         out, rc, to = sessions.run_daemon([tree.bin("qmail-smtpd")], PRE + bytes(stream), env, cwd=tree.root)
@@ -107,6 +112,16 @@ def main():
             if rng.random() < 0.7:
                 s += [13, 10, 46, 13, 10] + rng.choice([[], [120, 13, 10], [46, 13, 10, 120, 120, 10]])
             jobs.append((s, rng.choice([0, 0, 1, 7])))
+        # the same kind of streams under a size limit: accepted and stored exactly, or refused as a whole
+        for _ in range(nrand // 2):
+            ln = rng.choice([rng.randint(0, 100), rng.randint(130, 175), rng.randint(100, 900)])
+            s = []
+            for _ in range(ln):
+                k = rng.choices(range(5), weights=(1, 0, 2, 8, 2))[0]
+                s += [[13, 10], [10], [46], [120], [rng.randrange(32, 127)]][k]
+            s += [13, 10, 46, 13, 10] + rng.choice([[], [78, 79, 79, 80, 13, 10]])
+            jobs.append((s, rng.choice([0, 0, 7])))
+            limited.add(len(jobs))
         jobs = [(i + 1, s, c) for i, (s, c) in enumerate(jobs)]
 
     # ---- round trip through this package's own client: messages (lines over the alphabet, bare CRs
@@ -156,11 +171,13 @@ def main():
             r = "bad"
         elif not after:
             r = "eof"
+        elif after[0] == 552 and idx in limited:
+            r = "big"
         else:
             r = "other%d" % after[0]
         nlf = len([c for c in after[1:]]) if r == "end" else -1
         recs.append({"s": stream, "cap": cap, "res": r, "msg": msg, "q": 1 if queued else 0, "nlf": nlf, "rc": rc,
-                     "orig": orig.get(idx, [-1])})
+                     "orig": orig.get(idx, [-1]), "lim": LIMIT if idx in limited else 0})
         ck.count((tuple(stream), cap), nontrivial=(13 in stream or 46 in stream))
     if hung > len(jobs) // 50:
         raise Infra("%d of %d sessions hung" % (hung, len(jobs)))
@@ -169,7 +186,7 @@ def main():
     # is not reused; the reference encoding of every line sequence is what RoundTrip covers in the model,
     # here the real qmail-remote output for CR-free messages must decode to the message itself)
     recfile = ck.scratch.path("c05.ndjson")
-    write_ndjson(recfile, [{"s": r["s"], "res": r["res"], "msg": r["msg"], "q": r["q"], "nlf": r["nlf"], "orig": r["orig"]} for r in recs])
+    write_ndjson(recfile, [{"s": r["s"], "res": r["res"], "msg": r["msg"], "q": r["q"], "nlf": r["nlf"], "orig": r["orig"], "lim": r["lim"]} for r in recs])
     bad, vres = tlc_validate_records("SmtpdBlastRec", "SmtpdBlastRec.cfg", recfile, len(recs), chunk=300)
     ck.add_tlc("SmtpdBlastRec", vres)
     ck.cov["traces_validated_against_impl"] = len(recs)
